@@ -57,10 +57,19 @@ def serialize_json_safe(obj: Any) -> Any:
     """
 
     try:
-        json.dumps(obj, ensure_ascii=False, sort_keys=True)
-        return obj
+        text = json.dumps(obj, ensure_ascii=False, sort_keys=True)
     except Exception:
         return safe_repr(obj)
+    if isinstance(obj, (dict, list, tuple)):
+        # Record the JSON value, detached from the live container: drivers copy
+        # records with ``dataclasses.asdict``, which rebuilds containers through
+        # their own class (a ``dict`` subclass with another constructor signature
+        # made the traced run fail), and the caller may go on changing the object.
+        try:
+            return json.loads(text)
+        except Exception:
+            return safe_repr(obj)
+    return obj
 
 
 def _bytes_from_known_interfaces(obj: Any) -> bytes | None:
